@@ -29,7 +29,7 @@ class Entry:
 
 
 def _configs(level):
-    """(theory overrides, process, name, Q2)"""
+    """(theory overrides, process, name, Q2, x)"""
     out = []
     ratios = [3.0, 30.0, 1000.0] if level != "full" else [1.5, 3.0, 10.0, 30.0, 100.0, 1000.0, 1e4]
     mc = 1.5
@@ -39,15 +39,17 @@ def _configs(level):
         for process in ("NC",) if pol else ("NC", "CC"):
             # massless, nf = 3..6 through Q2
             for q2 in (2.0, 10.0, 100.0, 1e5):
-                out.append((dict(FNS="ZM-VFNS", PTO=pto), process, f"{kind}_total", q2))
-            out.append((dict(FNS="ZM-VFNS", PTO=pto), process, f"{kind}_charm", 100.0))
+                out.append((dict(FNS="ZM-VFNS", PTO=pto), process, f"{kind}_total", q2, 0.05))
+            out.append((dict(FNS="ZM-VFNS", PTO=pto), process, f"{kind}_charm", 100.0, 0.05))
             for nfff in (3, 4):
                 mh = {3: 1.5, 4: 4.5}[nfff]
                 for r in ratios:
                     q2 = r * mh * mh
                     for scheme in ("FFNS", "FFN0"):
                         th = dict(FNS=scheme, PTO=pto, NfFF=nfff, mc=mc, mb=4.5, mt=173.0)
-                        out.append((th, process, f"{kind}_total", q2))
+                        # two values of x: the intrinsic and CC heavy kernels depend on the kinematic point itself
+                        for x in (0.05, 0.45):
+                            out.append((th, process, f"{kind}_total", q2, x))
     return out
 
 
@@ -62,10 +64,10 @@ def build(level="quick"):
     problems = []
     with warnings.catch_warnings():
         warnings.simplefilter("ignore")
-        for over, process, name, q2 in _configs(level):
+        for over, process, name, q2, x0 in _configs(level):
             th = cards.theory(**over)
             proj = "neutrino" if process == "CC" else "electron"
-            ob = cards.observables(prDIS=process, ProjectileDIS=proj, observables={name: [{"x": 0.05, "Q2": q2}]})
+            ob = cards.observables(prDIS=process, ProjectileDIS=proj, observables={name: [{"x": x0, "Q2": q2}]})
             try:
                 r = run.runner(th, ob)
                 esf = r.observables[name].elements[0]
@@ -94,13 +96,14 @@ def build(level="quick"):
                         continue
                     if rsl.reg is None and rsl.sing is None and rsl.loc is None:
                         continue
-                    key = (mod, cls.__name__, o, nf, xi)
+                    xdep = x0 if family in ("intrinsic", "heavy") else None
+                    key = (mod, cls.__name__, o, nf, xi, xdep)
                     if key in seen:
                         continue
                     seen.add(key)
-                    eid = f"{family}:{mod.split('.', 1)[-1]}.{cls.__name__}:{o}:nf{nf}" + (f":lgxi{xi}" if xi is not None else "")
+                    eid = f"{family}:{mod.split('.', 1)[-1]}.{cls.__name__}:{o}:nf{nf}" + (f":lgxi{xi}" if xi is not None else "") + (f":x{xdep}" if xdep not in (None, 0.05) else "")
                     entries.append(
-                        Entry(eid, family, rsl, nf, {"kind": name.split("_")[0], "process": process, "order": o, "q2": q2, "m2": m2, "cls": cls.__name__, "module": mod, "x": 0.05})
+                        Entry(eid, family, rsl, nf, {"kind": name.split("_")[0], "process": process, "order": o, "q2": q2, "m2": m2, "cls": cls.__name__, "module": mod, "x": x0})
                     )
         for lvl, labels in enumerate(split.raw_labels):
             for lab, fnc in labels.items():
